@@ -61,4 +61,39 @@ partial def pathP (t : CGen.Ty) (v : Lay.Val) : List LayM.Step → Option (List 
 def writeP (t : Lay.Ty) (v : Lay.Val) (off : Nat) (mem : LayM.Mem) : List UInt8 :=
   Lay.apply (Lay.shift off (Lay.patchesD t v)) mem.toList
 
+/-- as `valP`, for every type: a reference word is blank (its content depends on where referent and slot were placed) -/
+partial def valPR (t : CGen.Ty) (v : LayM.VIn) : Option Lay.Val :=
+  match t, v with
+  | .ref _, _ => some (.bits 0)
+  | .unionref _ _, _ => some (.bits 0)
+  | .scalar _, .bits b => some (.bits b)
+  | .string, .str bs => some (.str bs)
+  | .string, .cap n => some (.cap n)
+  | .struct _ fs, .dict d => (fs.mapM fun (n, ft) => (d.lookup n).bind (valPR ft)).map .struct
+  | .array it shp ord, v =>
+    let ai := arrInfo it shp ord
+    let shape : List Nat := if ai.staticShape then shp.map (·.getD 0) else LayM.shapeOf v shp.length
+    let idxs := LayM.iterIndex shape ord
+    (idxs.mapM fun idx => valPR it (LayM.elemAt v shape idx)).map (.arr shape)
+  | _, _ => none
+
+/-- the proof model on the REAL bytes of an object that holds references (reference slots as opaque words, `toLayR`): the value is
+the one the object was constructed from, with the reference words - whose content depends on where slot and referent were placed -
+read from the bytes by the proof model's reader.  Its size, the image the proof model's WRITER produces for it (must leave the real
+bytes as they are: every header word, offset, string, scalar and padding byte where the library put it) and every non-reference leaf
+its READER decodes must agree with the executable model -/
+def checkRefObject (t : CGen.Ty) (v : LayM.VIn) (mem : LayM.Mem) (o size : Nat) : Option String :=
+  let tp := Lay.toLayR t
+  let m := mem.toList
+  let vr := Lay.readD tp m o
+  match valPR t v with
+  | some vin =>
+    let vp := Lay.fillRefs t vin vr
+    if Lay.vsize tp vp != size then some s!"PROOF-MODEL-DIFFERS refs-size {Lay.vsize tp vp}"
+    else if Lay.apply (Lay.shift o (Lay.patchesD tp vp)) m != m then some "PROOF-MODEL-DIFFERS refs-bytes"
+    else if showP t (Lay.maskRefs t vr) != showP t (Lay.maskRefs t vin.norm) then
+      some s!"PROOF-MODEL-DIFFERS refs-read {showP t (Lay.maskRefs t vr)}"
+    else none
+  | none => none
+
 end Drv.LayP
